@@ -61,6 +61,13 @@ func FieldOf(v ssa.Value) (*types.Var, ssa.Value) {
 	return nil, nil
 }
 
+// ParamArg: the argument bound to prm when its function has a single static call site (else nil).
+func ParamArg(prm *ssa.Parameter) ssa.Value {
+	deferMu.Lock()
+	defer deferMu.Unlock()
+	return paramArg[prm]
+}
+
 // paramArg: parameter of a single-call-site unexported function -> the argument at that site
 // (filled by indexDeferred).
 var paramArg = map[*ssa.Parameter]ssa.Value{}
@@ -791,7 +798,23 @@ func (p *Prog) indexDeferred() {
 				AllInstrs(fn, func(in ssa.Instruction) {
 					if mc, ok := in.(*ssa.MakeClosure); ok && mc.Fn == ssa.Value(w) {
 						n++
-						where = append(where, fn)
+						// closure-like only when handed to a function of the repository that is called here and
+						// now; a method value given to an executor, a timer or `go` runs on its own and stays a
+						// function in its own right (the sender, a timer callback)
+						sync := mc.Referrers() != nil && len(*mc.Referrers()) > 0
+						if sync {
+							for _, ref := range *mc.Referrers() {
+								call, isCall := ref.(*ssa.Call)
+								if !isCall || call.Call.IsInvoke() || call.Call.StaticCallee() == nil || !inFuncs[call.Call.StaticCallee()] {
+									sync = false
+								}
+							}
+						}
+						if sync {
+							where = append(where, fn)
+						} else {
+							where = append(where, nil)
+						}
 					}
 				})
 			}
